@@ -36,8 +36,8 @@ structure SNode where
 /-- a block node carries a block: its root differs from its parent root -/
 def SNode.isBlock (n : SNode) : Bool := n.parentRoot != n.ref.root
 
+/-- the latest accepted vote of one validator -/
 structure LatestVote where
-  validator : Nat
   target : NodeRef
   epoch : Nat
   deriving DecidableEq, Repr, Inhabited
@@ -45,7 +45,8 @@ structure LatestVote where
 structure Abs where
   spe : Nat
   nodes : List SNode
-  votes : List LatestVote
+  /-- indexed by validator; `none` = has not voted -/
+  votes : List (Option LatestVote)
   balances : List Nat
   justified : Checkpoint
   finalized : Checkpoint
@@ -94,10 +95,20 @@ def fuel (a : Abs) : Nat := a.nodes.length + 1
 
 def balanceOf (a : Abs) (v : Nat) : Nat := a.balances.getD v 0
 
+/-- the vote counts for the subtree of `r`: its target is a node of that subtree -/
+def countsFor (a : Abs) (r : NodeRef) (l : LatestVote) : Bool :=
+  a.has l.target && a.fcAncestorOrSelf r a.fuel l.target
+
+/-- sum over the validators `k, k+1, …` (votes `vs`) of the balances of those whose vote counts for `r` -/
+def weightFrom (a : Abs) (r : NodeRef) : Nat → List (Option LatestVote) → Nat
+  | _, [] => 0
+  | k, v :: vs =>
+    (match v with
+     | some l => if a.countsFor r l then a.balanceOf k else 0
+     | none => 0) + weightFrom a r (k + 1) vs
+
 /-- sum of the balances of the validators whose latest accepted vote lies in the fork-choice subtree of `r` -/
-def subtreeWeight (a : Abs) (r : NodeRef) : Nat :=
-  (a.votes.filter (fun v => a.has v.target && a.fcAncestorOrSelf r a.fuel v.target)).foldl
-    (fun acc v => acc + a.balanceOf v.validator) 0
+def subtreeWeight (a : Abs) (r : NodeRef) : Nat := a.weightFrom r 0 a.votes
 
 /-- `leads n ⇔ viable n ∨ ∃ child c, leads c` -/
 def leads (a : Abs) : Nat → SNode → Bool
@@ -199,12 +210,12 @@ def processAttestation (a : Abs) (v : Nat) (root : Root) (slot : Nat) : Abs × B
   if root = 0 ∧ slot = 0 then ({ a with poisoned := true }, false) else
   if !a.has ⟨slot, root⟩ then (a, false) else
   let epoch := slot / a.spe
-  match a.votes.find? (fun l => l.validator = v) with
-  | none => ({ a with votes := a.votes ++ [⟨v, ⟨slot, root⟩, epoch⟩] }, true)
+  let votes := if v ≥ a.votes.length then a.votes ++ List.replicate (v + 1 - a.votes.length) none else a.votes
+  match votes.getD v none with
+  | none => ({ a with votes := votes.set v (some ⟨⟨slot, root⟩, epoch⟩) }, true)
   | some l =>
-    if epoch > l.epoch then
-      ({ a with votes := a.votes.map (fun l => if l.validator = v then ⟨v, ⟨slot, root⟩, epoch⟩ else l) }, true)
-    else (a, true)
+    if epoch > l.epoch then ({ a with votes := votes.set v (some ⟨⟨slot, root⟩, epoch⟩) }, true)
+    else ({ a with votes := votes }, true)
 
 /-! ### checkpoints and pruning -/
 
